@@ -286,7 +286,7 @@ def applicable(ann, e, W):
     if ann in GENERIC:
         return 'yes'
     if ann == 'rename-to':
-        return 'yes' if k == 'function' else 'no'
+        return 'yes' if k == 'function' else 'undecided'       # "identifier": not restricted by the documentation
     if ann == 'constructor':
         if k != 'function':
             return 'no'
@@ -300,7 +300,7 @@ def applicable(ann, e, W):
             return 'no'
         if e['role'] == 'method' and e['owner'] in W['classes']:
             return 'yes'
-        return 'no'
+        return 'undecided'          # constructors / static / plain functions: "this function is the invoker" is not excluded
     if ann in ('set-property', 'get-property'):
         # giannotations.rst: "identifier (only applies to methods)"; gir-1.2.rnc: attribute of <method> only
         if k == 'function' and e['role'] == 'method' and e['owner'] in W['classes']:
@@ -331,7 +331,10 @@ def applicable(ann, e, W):
             return 'undecided' if e['cbfield'] else 'yes'
         return 'no'
     if ann == 'emitter':
-        return 'yes' if k == 'signal' else 'no'
+        # the table says "identifier (only applies to methods)" next to "This signal is emitted by the given method"
+        if k == 'signal':
+            return 'yes'
+        return 'undecided' if k == 'function' else 'no'
     raise AssertionError(ann)
 
 
@@ -443,6 +446,16 @@ def _near_misses(e, W):
     return [(how, x) for how, x in out if x not in W['idents'] and len(x) > 1]
 
 
+# annotations on an element kind the documentation excludes, where a mix-up is plausible
+CONFUSIONS = [('value', ['member', 'enum', 'flags']), ('value', ['property', 'field', 'function']), ('emitter', ['property', 'vfunc', 'field']),
+              ('setter', ['signal', 'field']), ('getter', ['signal', 'function']), ('default-value', ['field', 'constant', 'signal']),
+              ('transfer', ['field', 'signal', 'function']), ('type', ['signal', 'constant', 'member', 'function']),
+              ('copy-func', ['class', 'interface', 'enum']), ('free-func', ['class', 'callback']), ('ref-func', ['record', 'boxed', 'interface']),
+              ('unref-func', ['record', 'union']), ('set-value-func', ['boxed', 'interface']), ('get-value-func', ['record', 'enum']),
+              ('foreign', ['class', 'enum', 'function', 'property']), ('virtual', ['property', 'signal', 'vfunc']),
+              ('constructor', ['record', 'class', 'property']),
+              ('method', ['signal', 'property', 'callback']), ('finish-func', ['signal', 'property', 'class']),
+              ('set-property', ['property', 'signal', 'field']), ('get-property', ['property', 'vfunc'])]
 _KIND_WEIGHTS = [('property', 5), ('signal', 4), ('field', 4), ('vfunc', 4), ('member', 2), ('constant', 2), ('function', 8), ('enum', 1),
                  ('flags', 1), ('record', 2), ('boxed', 1), ('union', 1), ('callback', 1), ('class', 2), ('interface', 1), ('classstruct', 1)]
 _KINDS = [f for f, w in _KIND_WEIGHTS for _ in range(w)]
@@ -462,6 +475,10 @@ def _block(draw, W, mode):
             cands = hit
         else:
             first = 'virtual'
+    elif mode == 'confuse':
+        first, kinds = draw(st.sampled_from(CONFUSIONS))
+        kind = draw(st.sampled_from(kinds))
+        cands = [e for e in W['elems'] if e['kind'] == kind]
     elif mode == 'any' and draw(st.integers(0, 9)) < 6:
         first = draw(st.sampled_from(ALL_ANNS))
         cands = [e for e in W['elems'] if applicable(first, e, W) == 'yes']
@@ -483,6 +500,7 @@ def _block(draw, W, mode):
     if near:
         nm = _near_misses(e, W)
         hows = sorted(set(h for h, x in nm))
+        hows = hows + [h for h in hows if h.startswith('form:') or h in ('other-owner', 'vfunc-via-instance')] * 2
         how = draw(st.sampled_from(hows))
         nm = [x for h, x in nm if h == how]
         ident = nm[draw(st.integers(0, len(nm) - 1))]
@@ -532,6 +550,8 @@ def cases(draw):
     modes = ['nested', 'near'] + ['any'] * (n - 2)
     if draw(st.integers(0, 3)) == 0:
         modes.append('invoker')
+    if draw(st.integers(0, 2)) == 0:
+        modes.append('confuse')
     blocks = []
     used = set()
     for m in modes:
@@ -860,8 +880,9 @@ def check_case(case, ctx):
             if m is not None and e['nparams'] >= 1 and m['nparams'] == e['nparams'] and m['void'] == (e['ret'] == 'void'):
                 if ctx.known('crash:emitter-names-method-with-parameters'):
                     b['anns'] = [x for x in b['anns'] if x[0] != 'emitter']
-        if e['kind'] == 'function' and e['role'] == 'method' and e['owner'] not in W['classes'] and _has(b, 'virtual') \
-                and not _has(b, 'constructor'):
+        if e['kind'] == 'function' and _has(b, 'virtual') and (
+                (e['owner'] is not None and e['owner'] not in W['classes'])
+                or (e['role'] == 'function' and e['method_ok'] and _has(b, 'method'))):
             if ctx.known('crash:virtual-on-method-of-record'):
                 b['anns'] = [x for x in b['anns'] if x[0] != 'virtual']
         if e['kind'] == 'function' and e['role'] == 'method' and _has(b, 'method'):
@@ -899,6 +920,7 @@ def check_case(case, ctx):
         if not primary:
             raise Violation('direct:documented-element-missing', '%s (%s) has no element in the GIR\n%s' % (b['ident'], e['kind'], render(b)))
         checks = list(_expected_generic(b))
+        overridden = False
         # the invoker's block is merged into a virtual method that has its own block (known finding): the generic
         # expectations of the vfunc's own block are then not asserted
         if e['kind'] == 'vfunc':
@@ -907,7 +929,7 @@ def check_case(case, ctx):
                           and W['idents'][ob['ident']]['kind'] == 'function' and W['idents'][ob['ident']].get('owner') == e['owner']
                           and (ob['ident'] == inv or _ann(ob, 'virtual') == e['name'])]
             if overriders and ctx.known('vfunc-own-block-overridden-by-invoker-block'):
-                checks = []
+                overridden = True
         if e['kind'] == 'field' and e['cbfield'] and b['since']:
             if ctx.known('since-lost-on-callback-field'):
                 checks = [c for c in checks if c[0] != 'since']
@@ -984,6 +1006,8 @@ def check_case(case, ctx):
                     raise Violation('direct:rename-to', '%s (rename-to %s): shadows=%r, target shadowed-by=%r\n%s'
                                     % (b['ident'], v, me.attrs.get('shadows'), tgt[0].attrs.get('shadowed-by') if tgt else None, render(b)))
                 ctx.label('direct:rename-to')
+        if overridden:
+            checks = []
         for clause, chk in checks:
             for x in primary:
                 prob = chk(x)
@@ -1197,10 +1221,6 @@ def _rules(b, e, W, blocks, by_ident, component, A, Bi):
             # "Prefer full docblocks, but fall back to the field description": only the description
             rules.append((p_child(e['slot_of'], 'virtual-method', e['name'], False), set(), set(['doc'])))
     return rules
-
-
-def known_shape(case, v):
-    return None
 
 
 def plan(tier):
